@@ -166,11 +166,14 @@ void constructCommon(ModelSignature model,
     };
 
     size_t total_num_launched = complete.getNumStored() + grid.getNumLoaded(); // count all launched jobs, including the ones already complete
+    auto remaining_budget = [&]()->size_t{ // the grid may already hold more points than the budget
+        return (total_num_launched < max_num_points) ? max_num_points - total_num_launched : 0;
+    };
     auto checkout_sample = [&]()->std::vector<double>{ // get the "most-important" point that has not started yet
-        auto x = manager.next(max_num_points - total_num_launched);
+        auto x = manager.next(remaining_budget());
         if (x.empty()){ // did not find a job, maybe we need to refresh the candidates
             refresh_candidates();
-            x = manager.next(max_num_points - total_num_launched); // if this is empty, then we have exhausted all possible candidates
+            x = manager.next(remaining_budget()); // if this is empty, then we have exhausted all possible candidates
         }
         return x;
     };
@@ -230,7 +233,7 @@ void constructCommon(ModelSignature model,
         // launch initial set of jobs
         std::vector<std::thread> workers(num_parallel_jobs);
         for(size_t id=0; id<num_parallel_jobs; id++){
-            x[id] = manager.next(max_num_points - total_num_launched);
+            x[id] = manager.next(remaining_budget());
             if (!x[id].empty()){
                 total_num_launched += x[id].size() / num_dimensions;
                 set_initial_guess(x[id], y[id]);
@@ -296,10 +299,10 @@ void constructCommon(ModelSignature model,
         std::vector<double> x(grid.getNumDimensions()), y( grid.getNumOutputs());
 
         while((total_num_launched < max_num_points) && (manager.getNumCandidates() > 0)){
-            x = manager.next(max_num_points - total_num_launched);
+            x = manager.next(remaining_budget());
             if (x.empty()){ // need more candidates
                 refresh_candidates();
-                x = manager.next(max_num_points - total_num_launched); // if this is empty, then we have exhausted the candidates
+                x = manager.next(remaining_budget()); // if this is empty, then we have exhausted the candidates
             }
             if (!x.empty()){ // could be empty if there are no more candidates
                 total_num_launched += x.size() / num_dimensions;
